@@ -170,3 +170,78 @@ func H_C20_marker(k, second int) {
 	check(vsame(f2, f), "C20.idempotent")
 	vdigest(f)
 }
+
+// H_C20_fence(n1, n2): a fenced code block (opening fence of seven backticks) whose
+// two content lines are n1 and n2 free bytes over {backtick, space, tab, 'a'} - lines
+// that may look like closing fences of any shorter length, with indentation and
+// trailing whitespace. Variant (solver-chosen): the block is closed by its fence, or
+// runs to the end of input with / without a final line ending. Format must choose a
+// fence that none of the content lines closes.
+func H_C20_fence(n1, n2 int) {
+	line := func(n int) []byte {
+		var l []byte
+		for i := 0; i < n; i++ {
+			c := nondetByte()
+			assume(vor(vor(c == '`', c == ' '), vor(c == '\t', c == 'a')))
+			l = append(l, c)
+		}
+		return l
+	}
+	d := []byte("```````\n")
+	d = append(d, line(n1)...)
+	d = append(d, '\n')
+	d = append(d, line(n2)...)
+	switch vconcrete(nondetInt(0, 2)) {
+	case 0:
+		d = append(d, "\n```````\n"...)
+	case 1:
+		d = append(d, '\n')
+	}
+	f := formatDoc(cloneBytes(d))
+	h1 := normHTML(renderHTML(cloneBytes(d)))
+	h2 := normHTML(renderHTML(cloneBytes(f)))
+	if !vsame(h1, h2) {
+		vnote("doc=" + string(d))
+		vnote("formatted=" + string(f))
+	}
+	check(vsame(h2, h1), "C20.meaning-preserved")
+	f2 := formatDoc(cloneBytes(f))
+	check(vsame(f2, f), "C20.idempotent")
+	vdigest(f)
+}
+
+// H_C20_esc(k, cont): a paragraph of k backslash-escaped punctuation bytes (each a
+// solver variable over all ASCII punctuation), at top level (cont 0), as the first
+// line of a bullet item (1), of an ordered item (2) or of a block quote (3), and as a
+// continuation line of a paragraph in a bullet item (4). The formatter may drop
+// escapes it considers unnecessary, but the text must stay text.
+func H_C20_esc(k, cont int) {
+	var d []byte
+	switch cont {
+	case 1:
+		d = append(d, "- "...)
+	case 2:
+		d = append(d, "1. "...)
+	case 3:
+		d = append(d, "> "...)
+	case 4:
+		d = append(d, "- a\n  "...)
+	}
+	for i := 0; i < k; i++ {
+		p := nondetByte()
+		assume(classOK(p, 'P'))
+		d = append(d, '\\', p)
+	}
+	d = append(d, '\n')
+	f := formatDoc(cloneBytes(d))
+	h1 := normHTML(renderHTML(cloneBytes(d)))
+	h2 := normHTML(renderHTML(cloneBytes(f)))
+	if !vsame(h1, h2) {
+		vnote("doc=" + string(d))
+		vnote("formatted=" + string(f))
+	}
+	check(vsame(h2, h1), "C20.meaning-preserved")
+	f2 := formatDoc(cloneBytes(f))
+	check(vsame(f2, f), "C20.idempotent")
+	vdigest(f)
+}
